@@ -45,6 +45,16 @@ CLAIMED = {
    "All index sizes 16..=44 x key classes x all pages with <= 2 (quick) / <= 3 (thorough) occupied slots from {exact match, exact match other address, match on fast-compared bits only, non-match, zero partial key} plus full pages with one special entry at each position x all 64 start positions. Oracle: returned slot >= start, non-empty, equal to the page content, agrees with the key on all compared bits, is the first such slot, no exact match before it; 'absent' only if no exact match at or after start; the scalar search must be exact.",
    "x86_64 only (the SSE2 path exists only there). Pages with 4..63 occupied slots are covered only by the full-page family.",
    "DESIGN.md §3 E4, §4 C19"),
+ "C02": ("crashmc", "fault_enumeration",
+   "exhaustive crash-point enumeration over recorded I/O traces of the real Db: every file-operation boundary (and torn variants) of every edge of the bounded state graph, recovery + prefix oracle on every distinct image, nested crashes during recovery",
+   "libc interposition (open/write/ftruncate/fsync/fdatasync/msync/mmap/unlink/rename) plus the mmap-store hook give the ordered list of file mutations of every event; a shadow file system mirrors them (and is compared byte-for-byte with the real files on every execution). For every edge of the graph search (hash+btree, ref-counted+multitree, creation from a non-existent directory) every operation boundary and torn prefixes of writes/stores yield an image that is materialised, opened, read back and matched against S_0..S_n; then a further transaction is committed, driven and survives a reopen; recovery itself is crashed at each of its operations (depth 2).",
+   "Process-crash model (completed writes survive). Bounds per scenario in the evidence. Known finding F-C02-claimed-entries-leak is reported, not failed. Index-growth histories are not in the crash sets yet (C09 not built).",
+   "DESIGN.md §3 E2, §4 C02"),
+ "C03": ("seqmc+crashmc", "fault_enumeration",
+   "graph search with drop+reopen offered at every pipeline state (clean-shutdown clause) and crash-image enumeration with a durability lower bound derived from observed sync operations (synced-records clause)",
+   "(a) reopen (drop, open) at every state of the graph (commits queued / logged / synced / half-applied files / several files pending): afterwards all accepted commits are present in order; (b) every crash image of every edge judged with lo = commits whose log file was fdatasync'ed before the crash point.",
+   "Stepping mode (no threads): the threaded drop needs the loom engine (not built). Reindex-pending drops need the growth family (C09, not built).",
+   "DESIGN.md §4 C03"),
 }
 
 NOT_YET = {}
@@ -85,7 +95,8 @@ def main():
         "engines": [
             {"name": "seqmc-sweep", "path": "/verif/mc/src/props/c06.rs", "serves_properties": ["C06"], "kind_free_text": "exhaustive finite sweeps (lengths, overwrite sequences) over the real Db"},
             {"name": "pagemc", "path": "/verif/mc/src/props/c19.rs", "serves_properties": ["C19"], "kind_free_text": "exhaustive enumeration of index pages x keys x start positions against both page-search implementations"},
-            {"name": "seqmc", "path": "/verif/mc", "serves_properties": sorted([k for k, v in CLAIMED.items() if v[0] == "seqmc"]),
+            {"name": "crashmc", "path": "/verif/mc/src/crash.rs, /verif/mc/src/crashmc.rs", "serves_properties": ["C02", "C03"], "kind_free_text": "I/O trace recording by libc interposition + mmap store hook, shadow file system, exhaustive crash-image enumeration with recovery oracle"},
+            {"name": "seqmc", "path": "/verif/mc", "serves_properties": sorted([k for k, v in CLAIMED.items() if "seqmc" in v[0]]),
              "kind_free_text": "bounded exhaustive graph search over histories x pipeline-stage schedules of the real Db in stepping mode, reference models, pipeline model PM in lock-step"},
         ],
         "checks": checks,
